@@ -48,6 +48,10 @@ class Contract:
         # ghost arguments this function passes at its call sites: callee key -> {ghost name: specification expression
         # evaluated in the caller's state at the call}
         self.ghost_args = dict(kw.pop("ghost_args", {}))
+        # sidecar proof hints (ghost assertions): "before_call:<callee key>" / "after_call:<callee key>" -> [(name, text)];
+        # each hint is an OBLIGATION of this function at that point and is assumed afterwards (like an `assert` in ghost
+        # code); in after_call hints `_ret` is the value the callee returned
+        self.hints = {k: _named(v, "hint") for k, v in dict(kw.pop("hints", {})).items()}
         self.properties = list(kw.pop("properties", []))   # property ids this contract serves
         self.trusted = bool(kw.pop("trusted", False))      # assumed, body not verified (listed in evidence)
         self.trusted_reason = kw.pop("trusted_reason", "")
